@@ -43,8 +43,31 @@ EXTRA = {
 }
 
 
+EXTRA3 = {
+    "C01": ["the datatype of an rdflib literal never derives from its lexical form (R-FLOW)"],
+    "C02": ["the user's namespaces win over every other source (R-PRIO)", "the class loop yields one shape per class and _build_shapes keeps every shape (R-LOOP)"],
+    "C03": ["the datatype of an rdflib literal never derives from its lexical form (R-FLOW)", "class-iteration agreement"],
+    "C04": ["a requested class without instances does not make the min-IRI annotation raise (table)", "raw documents are cut at \\n only",
+            "slot / by-name variant calls bind in the configuration they run in (R-SIG)"],
+    "C05": ["R-PRIO", "shapes-prefix decision table", "shape labels are injective over class IRIs (table; known finding)"],
+    "C06": ["whole-document table through yield_triples (comments, blank lines, escapes, markers inside the lexical form)"],
+    "C07": ["whole-document table through yield_triples (abbreviations, line breaks, directive-like prefix labels, @base, bare numbers; out-of-dialect text raises)",
+            "raw documents are cut at \\n only"],
+    "C09": ["whole-document N-Triples table", "_build_shapes keeps every shape whatever the order (R-LOOP)"],
+    "C10": ["R-PRIO", "what a selector returns is a copy of the graph's answers (R-FLOW)"],
+    "C12": ["_build_shapes keeps every shape (R-LOOP)"],
+    "C13": ["cardinality tuning table at the entry point"],
+    "C15": ["a token without corners that is not http(s) is left alone (table)"],
+    "C16": ["the list of files reaches the multi-file readers as given and is read front to back (R-FLOW)"],
+    "C17": ["fold rows in object mode (any marker), example rendering keeps the value (table), class without instances (table)"],
+    "C18": ["launches guarded inside the launch function; buffer threshold recognised in any comparison shape"],
+    "C19": ["order escapes through extend / += / writelines", "only the shapes-prefix fallback may reach `random`", "shapes-prefix decision table",
+            "whole-graph iteration of an rdflib graph (known finding)", "rdflib_graph carries the user's value only"],
+}
+
+
 def extra(prop):
-    xs = EXTRA.get(prop)
+    xs = list(EXTRA.get(prop) or []) + list(EXTRA3.get(prop) or [])
     return "" if not xs else " Added in session 2: " + "; ".join(xs) + "."
 
 
